@@ -164,7 +164,48 @@ var ltlsDesc = &lmDesc{
 	},
 }
 
-func (ltls) Run(c Case) Result { return lmRun(ltlsDesc, c) }
+// tlHasClientHello: does a walk of the records (by the harness) meet a handshake record whose first octet is 1?
+func tlHasClientHello(data []byte) bool {
+	for len(data) >= 5 {
+		n := int(data[3])<<8 | int(data[4])
+		if data[0] == 22 && len(data) > 5 && data[5] == 1 {
+			return true
+		}
+		if 5+n > len(data) {
+			return false
+		}
+		data = data[5+n:]
+	}
+	return false
+}
+
+// Run adds to the generic ops an oracle for dec: the same bytes decoded as a slice of a larger array (cap > len, the array
+// continuing with zeros) must give the same result as decoded with cap = len: a decoder may not read past the slice it is given.
+func (ltls) Run(c Case) Result {
+	r := lmRun(ltlsDesc, c)
+	for _, op := range c.Ops {
+		name, a := lnOp(op)
+		if name != "dec" {
+			continue
+		}
+		data := lnUnhex(a[0])
+		exact := &layers.TLS{}
+		ce := lnClass(func() error { return exact.DecodeFromBytes(tlExact(data), &lnFeedback{}) })
+		big := make([]byte, len(data)+96)
+		copy(big, data)
+		wide := &layers.TLS{}
+		cw := lnClass(func() error { return wide.DecodeFromBytes(big[:len(data)], &lnFeedback{}) })
+		if ce != cw || tlFields(exact) != tlFields(wide) {
+			site := "other"
+			if tlHasClientHello(data) {
+				site = "ClientHello"
+			}
+			r.Oracle = append(r.Oracle, fmt.Sprintf("C05:beyond-slice\tsite=%s; decoding data[:n] of a larger array differs from decoding a slice with cap = len (%s vs %s)", site, cw, ce))
+			r.Tags = append(r.Tags, "capacity-dependent")
+		}
+	}
+	return r
+}
 
 // tlRec: one record; decl < 0 means len(body).
 func tlRec(ct byte, ver int, body []byte, decl int) []byte {
